@@ -140,7 +140,8 @@ inline rc::Gen<EncCase> genEncCase(const EncGenParams& params)
                       return (cap - used) - 16 + d;  // fits the rest of the current frame exactly / just not
                   })},
                  {2, range<long>(1, std::max<long>(1, 4 * cap))},
-                 {1, range<long>(60000, 65535)}});
+                 {1, range<long>(60000, 65535)},
+                 {1, rc::gen::map(range<long>(0, 24), [](long d) { return 65535 - d; })}});  // top of the 16-bit length range
             target = std::max<long>(1, std::min<long>(target, 65535));
             long hs = static_cast<long>(PacketRecipe::headerSize(r.kind));
             long len = r.kind == rkGeneric ? target : std::max<long>(0, target - hs);
